@@ -376,6 +376,11 @@ impl WebSocket for SimWs {
                     return Poll::Ready(None);
                 }
                 SrcMode::Silent => {
+                    // tungstenite in the server role reports the end as soon as both Close frames
+                    // have been exchanged, without looking at the transport again
+                    if l.d[from].close_consumed && l.d[me].sink_closed && l.pending_reply[me].is_none() && !l.waits_for_transport_close[me] {
+                        return Poll::Ready(None);
+                    }
                     l.d[from].rx_waker = Some(cx.waker().clone());
                     return Poll::Pending;
                 }
